@@ -147,11 +147,49 @@ decreasing_by simp only [List.length_drop]; omega
 inductive Role | initiator | responder
 deriving DecidableEq, Repr
 
+/-- `protocolReceivers map[uint16]map[ProtocolRole]*segmentChannel` as a nested association
+    list: protocol id ↦ the roles that currently have a receiver. An id entry, once created by
+    `RegisterProtocol`, is never removed by `UnregisterProtocol` (only its role is), so an
+    entry with an empty role list is a reachable state and differs from "no entry". -/
+abbrev RegMap := List (Nat × List Role)
+
+/-- `protocolReceivers[id]` -/
+def rolesOf : RegMap → Nat → Option (List Role)
+  | [], _ => none
+  | (i, rs) :: t, id => if i = id then some rs else rolesOf t id
+
+def setRoles : RegMap → Nat → List Role → RegMap
+  | [], id, rs => [(id, rs)]
+  | (i, r0) :: t, id, rs => if i = id then (i, rs) :: t else (i, r0) :: setRoles t id rs
+
+/-- `_, ok := protocolReceivers[id]` -/
+def hasId (m : RegMap) (id : Nat) : Bool := (rolesOf m id).isSome
+
+/-- `protocolReceivers[id][role] != nil` -/
+def hasKey (m : RegMap) (id : Nat) (role : Role) : Bool :=
+  match rolesOf m id with
+  | some rs => rs.contains role
+  | none => false
+
+/-- `RegisterProtocol(id, role)` (receiver side of it). -/
+def register (m : RegMap) (id : Nat) (role : Role) : RegMap :=
+  match rolesOf m id with
+  | some rs => if rs.contains role then m else setRoles m id (role :: rs)
+  | none => setRoles m id [role]
+
+/-- `UnregisterProtocol(id, role)`: only that role's entry is deleted; the id's map stays. -/
+def unregister (m : RegMap) (id : Nat) (role : Role) : RegMap :=
+  match rolesOf m id with
+  | some rs => if rs.contains role then setRoles m id (rs.filter (· != role)) else m
+  | none => m
+
+def RegMap.ofKeys (ks : List (Nat × Role)) : RegMap := ks.foldl (fun m k => register m k.1 k.2) []
+
 /-- Muxer configuration: diffusion mode (0 none, 1 initiator, 2 responder, 3 both)
-    and the registered (protocol id, role) receivers. -/
+    and the registered receivers. -/
 structure Cfg where
   mode : Nat
-  regs : List (Nat × Role)
+  regs : RegMap
 deriving Repr
 
 inductive Routed
@@ -165,10 +203,10 @@ def roleOf (pid : Nat) : Role := if isResponse pid then Role.initiator else Role
 /-- `protocolReceivers[id]` (fall back to `protocolReceivers[ProtocolUnknown]` only when
     there is no map for `id` at all), then the role entry of that map. -/
 def lookup (c : Cfg) (id : Nat) (role : Role) : Routed :=
-  if c.regs.any (fun r => r.1 == id) then
-    (if c.regs.contains (id, role) then .deliver id role else .err (.unknownProto id))
-  else if c.regs.any (fun r => r.1 == protocolUnknown) then
-    (if c.regs.contains (protocolUnknown, role) then .deliver protocolUnknown role
+  if hasId c.regs id then
+    (if hasKey c.regs id role then .deliver id role else .err (.unknownProto id))
+  else if hasId c.regs protocolUnknown then
+    (if hasKey c.regs protocolUnknown role then .deliver protocolUnknown role
      else .err (.unknownProto id))
   else .err (.unknownProto id)
 
@@ -197,6 +235,46 @@ def run (c : Cfg) (chunks : List Bytes) : List Delivery × End :=
   match routeAll c r.1 with
   | (ds, some e) => (ds, e)
   | (ds, none) => (ds, r.2)
+
+/-! ### Registrations changing while the connection runs -/
+
+/-- What happens on the connection, in order: bytes returned by one read, or a call of
+    `RegisterProtocol` / `UnregisterProtocol` from another goroutine between two reads. -/
+inductive Act
+  | data (chunk : Bytes)
+  | reg (id : Nat) (role : Role)
+  | unreg (id : Nat) (role : Role)
+deriving Repr
+
+structure MState where
+  phase : Phase
+  regs : RegMap
+  rout : List Delivery        -- deliveries so far, newest first
+  err : Option End
+deriving Repr
+
+def MState.init (regs : RegMap) : MState := ⟨Phase.init, regs, [], none⟩
+
+/-- Route the segments completed by one read with the registrations in force now. -/
+def MState.act (mode : Nat) (s : MState) : Act → MState
+  | .reg id role => { s with regs := register s.regs id role }
+  | .unreg id role => { s with regs := unregister s.regs id role }
+  | .data chunk =>
+    match s.err with
+    | some _ => s
+    | none =>
+      let r := feed ⟨s.phase, []⟩ chunk
+      match routeAll ⟨mode, s.regs⟩ r.rout.reverse with
+      | (ds, some e) => { s with phase := .halted, rout := ds.reverse ++ s.rout, err := some e }
+      | (ds, none) =>
+        { s with phase := r.phase, rout := ds.reverse ++ s.rout,
+                 err := if r.phase = .halted then some .zeroLen else none }
+
+/-- Whole receive side with run-time registration changes; at the end the connection
+    reports EOF. -/
+def runActs (mode : Nat) (regs : RegMap) (acts : List Act) : List Delivery × End :=
+  let s := acts.foldl (MState.act mode) (MState.init regs)
+  (s.rout.reverse, match s.err with | some e => e | none => endOf s.phase)
 
 def deliveredTo (k : Nat × Role) (ds : List Delivery) : List Bytes :=
   (ds.filter (fun d => d.1 == k)).map (·.2)
